@@ -40,6 +40,8 @@ pub enum Op {
     IterRev,
     IterMutAdd(i64),
     IntoIterRef,
+    IterBothEnds,
+    IterMutRevAdd(i64),
 }
 
 #[derive(Clone, Debug, Serialize, Deserialize, PartialEq)]
@@ -111,6 +113,8 @@ fn op_name(op: &Op) -> &'static str {
         Op::IterRev => "iter-rev",
         Op::IterMutAdd(_) => "iter_mut",
         Op::IntoIterRef => "into_iter",
+        Op::IterBothEnds => "iter-both-ends",
+        Op::IterMutRevAdd(_) => "iter_mut-rev",
     }
 }
 
@@ -320,6 +324,69 @@ fn run_typed<T: Elem, C: ArrayLength + PartialEq>(sc: &Sc, o: &mut Outcome) {
                     None
                 }
             }),
+            Op::IterBothEnds => sut(|| {
+                // take alternately from the front and from the back; also check the remaining length
+                let mut it = m.iter();
+                let mut front: Vec<Vec<T>> = Vec::new();
+                let mut back: Vec<Vec<T>> = Vec::new();
+                let mut lens_ok = true;
+                let mut k = 0usize;
+                let total = it.len();
+                loop {
+                    let item = if k % 2 == 0 { it.next() } else { it.next_back() };
+                    match item {
+                        Some(r) => {
+                            if k % 2 == 0 {
+                                front.push(r.to_vec())
+                            } else {
+                                back.push(r.to_vec())
+                            }
+                        }
+                        None => break,
+                    }
+                    k += 1;
+                    if it.len() != total - k {
+                        lens_ok = false;
+                    }
+                }
+                let after_end = it.next().is_none() && it.next_back().is_none();
+                back.reverse();
+                front.extend(back);
+                (front, lens_ok && after_end)
+            })
+            .map(|(rows, ok)| {
+                if rows != model {
+                    Some(("iteration".to_string(), "alternating next() / next_back() did not visit exactly the rows, each once, in order".to_string()))
+                } else if !ok {
+                    Some(("iteration".to_string(), "len() of a partly consumed iterator is wrong, or the iterator resumed after its end".to_string()))
+                } else {
+                    None
+                }
+            }),
+            Op::IterMutRevAdd(d) => {
+                for (r, row) in model.iter_mut().enumerate() {
+                    let col = (r + 1) % c;
+                    row[col] = T::from_i(row[col].to_i() + d);
+                }
+                let n_rows = model.len();
+                sut(|| {
+                    let mut n = 0;
+                    for (k, row) in (&mut m).into_iter().rev().enumerate() {
+                        let r = n_rows - 1 - k;
+                        let col = (r + 1) % c;
+                        row[col] = T::from_i(row[col].to_i() + d);
+                        n += 1;
+                    }
+                    n
+                })
+                .map(|n| {
+                    if n != model.len() {
+                        Some(("iteration".to_string(), format!("reverse mutable iteration visited {} rows of {}", n, model.len())))
+                    } else {
+                        None
+                    }
+                })
+            }
             Op::IterMutAdd(d) => {
                 for (r, row) in model.iter_mut().enumerate() {
                     let col = r % c;
@@ -392,7 +459,7 @@ pub fn gen_world(r: &mut Prng, idx: u64) -> Sc {
         _ => r.range(1, 40),
     };
     for _ in 0..n {
-        ops.push(match r.below(22) {
+        ops.push(match r.below(24) {
             0 => Op::New(rows(r)),
             1 => {
                 let n = rows(r);
@@ -412,6 +479,8 @@ pub fn gen_world(r: &mut Prng, idx: u64) -> Sc {
             18 => Op::IterFwd,
             19 => Op::IterRev,
             20 => Op::IterMutAdd(r.range(1, 100) as i64),
+            21 => Op::IterBothEnds,
+            22 => Op::IterMutRevAdd(r.range(1, 100) as i64),
             _ => Op::IntoIterRef,
         });
     }
@@ -560,7 +629,7 @@ impl Sim for DenseSim {
     }
 
     fn rule(_prop: &str) -> String {
-        "Cases: histories of 3..30 operations (new, with_capacity, from_rows, uninitialized + full write, resize up / down / same, reserve, row write, cell write by [row][col] and by MatrixCoordinates, fill, clone, equality against a logically equal matrix built by another route with different padding bytes, inequality after a one-cell change or a row-count change, forward / reverse / mutable / by-reference iteration) on DenseMatrix<T, C>, T in {u8, u32, f32, i64}, C in {1, 5, 7, 16, 21, 32, 43}, under the system allocator or the exact-align+poison allocator (addresses are multiples of the requested alignment but never of twice it; fresh memory 0xA5; freed memory 0x5A; growth always moves). After every operation: row count, column count, stride >= C and a whole number of 32-byte units, every row's address mod 32 = 0, every cell equal to the Vec<Vec<T>> model. Distinct = distinct tuples (T, C, allocator policy, first operation trigram). Non-trivial = at least three operations (every history).".to_string()
+        "Cases: histories of 3..30 operations (new, with_capacity, from_rows, uninitialized + full write, resize up / down / same, reserve, row write, cell write by [row][col] and by MatrixCoordinates, fill, clone, equality against a logically equal matrix built by another route with different padding bytes, inequality after a one-cell change or a row-count change, forward / reverse / alternating-ends / mutable / reverse-mutable / by-reference iteration) on DenseMatrix<T, C>, T in {u8, u32, f32, i64}, C in {1, 5, 7, 16, 21, 32, 43}, under the system allocator or the exact-align+poison allocator (addresses are multiples of the requested alignment but never of twice it; fresh memory 0xA5; freed memory 0x5A; growth always moves). After every operation: row count, column count, stride >= C and a whole number of 32-byte units, every row's address mod 32 = 0, every cell equal to the Vec<Vec<T>> model. Distinct = distinct tuples (T, C, allocator policy, first operation trigram). Non-trivial = at least three operations (every history).".to_string()
     }
 
     fn required_probes(_prop: &str, _tier: Tier) -> Vec<&'static str> {
